@@ -424,10 +424,22 @@ class SymDate(date):
 
     @property
     def year(self):
-        for y in YEARS[:-1]:
+        y = getattr(self, "_year", None)
+        if y is None:
+            y = self._year = self._find_year()
+        return y
+
+    def _find_year(self):
+        # forks over the window years plus one guard year on each side; anything further out is not modelled
+        if self.o.is_const():
+            return date.fromordinal(self.o.const_value()).year
+        ys = (YEARS[0] - 1,) + tuple(YEARS) + (YEARS[-1] + 1,)
+        if _c(self.o, "<", Poly.const(date(ys[0], 1, 1).toordinal())):
+            raise Unsupported("date before the modelled window")
+        for y in ys:
             if _c(self.o, "<", Poly.const(date(y + 1, 1, 1).toordinal())):
                 return y
-        return YEARS[-1]
+        raise Unsupported("date after the modelled window")
 
     def concrete(self):
         """exhaustive realisation as a real date"""
